@@ -15,3 +15,11 @@ package crypto
 //@ trusted func Keccak256(data [][]byte) (r []byte)
 //@   ensures fresh(r) && len(r) == 32
 //@   ensures len(data) == 1 ==> content(r) == keccak(content(data[0]))
+
+// Signature verification against an address, and the address of a public key, as pure functions.
+//@ spec func sigOKc(addr common.Address, hash Content, sig Content) bool
+//@ spec func pubAddr(p ecdsa.PublicKey) common.Address
+//@ trusted func VerifySignature(addr common.Address, hash, signature []byte) (r bool)
+//@   ensures r <==> sigOKc(addr, content(hash), content(signature))
+//@ trusted func PubkeyToAddress(p ecdsa.PublicKey) (r common.Address)
+//@   ensures r == pubAddr(p)
